@@ -843,6 +843,13 @@ func (fr *Frame) envFor(st *State, old *State, extra map[string]CV) *Env {
 	} else if fr.fn.Parent() != nil && fr.fn.Parent().Pkg != nil {
 		env.pkg = fr.fn.Parent().Pkg.Pkg
 	}
+	// names introduced by `def` in the contract of the function under
+	// verification
+	if fr.isRoot || fr == fr.fx.rootFrame {
+		for k, v := range fr.fx.rootLets {
+			env.vars[k] = v
+		}
+	}
 	for k, v := range extra {
 		env.vars[k] = v
 	}
@@ -1012,6 +1019,7 @@ func (e *Engine) verifyFunction(key string, extra *FuncSpec) (res *FuncResult) {
 			}
 			lets[l.Name] = fr0.evalExprIn(le, pre, pre, lets)
 		}
+		fx.rootLets = lets
 		for _, r := range spec.Requires {
 			r := r
 			if e.onlySafe && r.Label != "" && !strings.HasPrefix(r.Label, "safe") {
